@@ -115,7 +115,10 @@ class Lemma:
     """A property-level lemma over spec functions only (no code)."""
     builder = None
 
-    def __init__(self, name, props, variables, premises, goal, hints=None, note=''):
+    def __init__(self, name, props, variables, premises, goal, hints=None, note='',
+                 lets=None, cases=None):
+        self.lets = lets or {}       # name -> spec expr, evaluated once (per case)
+        self.cases = cases or []     # list of spec exprs: exhaustive case split (checked)
         self.name = name
         self.props = props
         self.variables = variables   # name -> Ty
@@ -143,8 +146,9 @@ class Registry:
         self.schemas[name] = Schema(name, module, base, fields or {}, consts)
         return self.schemas[name]
 
-    def lemma(self, name, props, variables, premises, goal, hints=None, note=''):
-        l = Lemma(name, props, variables, premises, goal, hints, note)
+    def lemma(self, name, props, variables, premises, goal, hints=None, note='', lets=None,
+              cases=None):
+        l = Lemma(name, props, variables, premises, goal, hints, note, lets, cases)
         self.lemmas.append(l)
         return l
 
